@@ -5,7 +5,7 @@ from . import slicer, mirparse
 
 VERIF = os.path.dirname(os.path.dirname(os.path.abspath(__file__)))
 BUILD = os.environ.get("VERIF_BUILD", os.path.join(VERIF, "build"))
-SHIM_CRATES = ["vstd", "futures", "atomic_float", "bincode"]
+SHIM_CRATES = ["vstd", "futures", "atomic_float", "bincode", "bytes", "tokio", "aws_sdk_s3", "aws_config"]
 
 CARGO_TOML = """[package]
 name = "nsym"
@@ -21,6 +21,10 @@ log = { path = "%(shims)s/log" }
 atomic_float = { path = "%(shims)s/atomic_float" }
 thread-id = { path = "%(shims)s/thread_id", package = "thread_id" }
 bincode = { path = "%(shims)s/bincode" }
+bytes = { path = "%(shims)s/bytes" }
+tokio = { path = "%(shims)s/tokio" }
+aws-sdk-s3 = { path = "%(shims)s/aws_sdk_s3" }
+aws-config = { path = "%(shims)s/aws_config" }
 lazy_static = "=1.5.0"
 vsym = { path = "%(shims)s/vsym" }
 [[bin]]
